@@ -1,9 +1,10 @@
 PROP = {
     "title": "Stream decoding is independent of how the io.Reader delivers bytes",
     "run_modules": ["RunReader"],
+    "gen": ["setters", "pure"],
     "n": {"quick": 3000, "thorough": 40000},
     "level": "proof",
-    "technique": "Coq model of the byteReader/teeReader adaptors, the getJson scanner, the reader entry points, bulk handlers and file readers over reader schedules + theorems over all schedules/streams + model/implementation correspondence under scripted io.Readers by vm_compute + Go-side oracle",
+    "technique": "go2v translation of func getJson from the current json.go (Gen/Pure_gen.v: the for loop around rdr.Read, break/continue, the byte switch) proved equal to the model scanner on every reader schedule (GenProofs/PureG6.v) + Coq model of the byteReader/teeReader adaptors, the getJson scanner, the reader entry points, bulk handlers and file readers over reader schedules + theorems over all schedules/streams + model/implementation correspondence under scripted io.Readers by vm_compute + Go-side oracle",
     "design_ref": "DESIGN.md section 6, C13",
     "assumptions": [
         "encoding/xml's Decoder with xmlToMapParser/xmlSeqToMapParser is an abstract deterministic consumer of ReadByte results that tests the error before the byte (Decoder.getc); in the correspondence its behaviour is a table filled on every run by running the same exported functions over a bytes.Reader (an io.ByteReader, so no mxj adaptor is involved)",
@@ -12,6 +13,6 @@ PROP = {
         "the XML theorems are stated for schedules without 100 consecutive (0, nil) reads: byteReader / teeReader then return io.ErrNoProgress (as bufio.Reader does); such scripts are generated for the correspondence (ErrNoProgress path) and excluded from the oracle",
         "an *os.File delivers every byte with a nil error and then (0, io.EOF)",
     ],
-    "level_text": "Machine-checked theorems over the executable model of the two single-byte adaptors, getJson, NewMapXmlReader[Raw], NewMapXmlSeqReader[Raw], NewMapJsonReader[Raw], the four bulk handlers and the file readers, for all legal schedules (every split, final data with io.EOF or before it, interspersed (0,nil) reads) and all streams; the model follows the repaired code (a2b77a7, 419ac2a, fd230a2, 9f7e6ef) and the former _refuted statements are now positive theorems; the model is tied to the current /repo by differential correspondence under scripted io.Readers and a Go-side oracle evaluates the property statement on the implementation.",
-    "level_note": "Trusted: Coq kernel + vm_compute; the XML decoder is the environment (table oracle, consumption assumption validated per run); hand-written model validated by correspondence on every run; one recorded finding (the raw value of the JSON Raw readers omits blanks); side condition of the XML theorems: fewer than 100 consecutive (0,nil) reads (witness C13_adaptor_no_progress).",
+    "level_text": "Machine-checked theorems over the executable model of the two single-byte adaptors, getJson, NewMapXmlReader[Raw], NewMapXmlSeqReader[Raw], NewMapJsonReader[Raw], the four bulk handlers and the file readers, for all legal schedules (every split, final data with io.EOF or before it, interspersed (0,nil) reads) and all streams; the model follows the repaired code (a2b77a7, 419ac2a, fd230a2, 9f7e6ef) and the former _refuted statements are now positive theorems; getJson itself is re-translated from the current json.go on every run and the translation is proved equal to the model scanner (C13_get_json_code_is_model; always returns: C13_get_json_code_returns; reads no package variable: C13_get_json_code_reads_no_option); the rest of the model is tied to the current /repo by differential correspondence under scripted io.Readers and a Go-side oracle evaluates the property statement on the implementation.",
+    "level_note": "Trusted: Coq kernel + vm_compute; the go2v translator and its vocabulary (Gen/PureSupport.v: for_loop, go_read = one event of the schedule per Read into a one-byte buffer, io.EOF the only reader error); the XML decoder is the environment (table oracle, consumption assumption validated per run); hand-written model validated by correspondence on every run; one recorded finding (the raw value of the JSON Raw readers omits blanks); side condition of the XML theorems: fewer than 100 consecutive (0,nil) reads (witness C13_adaptor_no_progress).",
 }
